@@ -1,0 +1,14 @@
+//go:build go1.22
+
+package rewriter
+
+import "go/types"
+
+// since go1.22 (default since go1.23) an alias type is represented by *types.Alias,
+// e.g. type Ints = co.Iter[int]
+func unalias(ty types.Type) types.Type {
+	if ty == nil {
+		return nil
+	}
+	return types.Unalias(ty)
+}
